@@ -213,12 +213,12 @@ def flag_liveness_and_overrides(ctx: Ctx) -> None:
     for q in (f"{PAR}.nodes.union:UnionNode.bind", f"{PAR}.dict:DictDecoder.bind_best_dataclass"):
         fi = ctx.repo.func(q)
         reps = [c for c in calls_in(fi.node) if isinstance(c.func, ast.Name) and c.func.id == "replace"]
-        ok = bool(reps) and all(unparse(c.args[0]) == "self.config" and isinstance(kwarg(c, "fail_on_converter_warnings"), ast.Constant) and kwarg(c, "fail_on_converter_warnings").value is True for c in reps)
+        ok = bool(reps) and all(c.args and "self.config" in value_texts(fi, c, c.args[0]) and isinstance(kwarg(c, "fail_on_converter_warnings"), ast.Constant) and kwarg(c, "fail_on_converter_warnings").value is True for c in reps)
         ctx.ob(f"{q.split(':')[1]}: candidates are tried with fail_on_converter_warnings=True", ok, at=fi, construct="strict candidates", msg="a candidate that merely warns would win over the right one")
         # and the strict config is the one the candidate parsers use
-        cfg_name = next((unparse(tgt) for st, tgt, v in stores(fi.node) if v is not None and any(v is r for r in reps)), None)
         uses = [c for c in calls_in(fi.node) if kwarg(c, "config") is not None]
-        ctx.ob(f"{q.split(':')[1]}: every candidate parser/decoder receives the strict config", bool(uses) and all(unparse(kwarg(c, "config")) == cfg_name for c in uses), at=fi,
+        strict_ok = bool(uses) and all(bool(lv) and all(any(x is r for r in reps) for x in lv) for c in uses for lv in [leaves_at(fi, c, kwarg(c, "config"))])
+        ctx.ob(f"{q.split(':')[1]}: every candidate parser/decoder receives the strict config", strict_ok, at=fi,
                construct="strict config used", msg="the strict copy is built but not used")
         # ... and it is derived from the options in force for THIS call: nothing built from self.config is kept on the instance
         kept = [(f, st) for f in family(ctx.repo, fi) for st, tgt, v in stores(f.node) if is_self_attr(tgt) and v is not None and "self.config" in unparse(expand(f.node, v))]
